@@ -21,8 +21,8 @@ def runs_of(obj):
         raise AnalysisError("expected a FmtStr model value, got %r" % (obj,))
     out = []
     for c in obj.fields.get("chunks", []):
-        a = c.fields.get("_atts")
-        out.append((c.fields.get("_s"), dict(a.payload) if isinstance(a, Obj) and a.payload is not None else dict(a or {})))
+        a = c.fields.get("_atts", c.fields.get("atts"))
+        out.append((c.fields.get("_s", c.fields.get("s")), dict(a.payload) if isinstance(a, Obj) and a.payload is not None else dict(a or {})))
     return out
 
 
